@@ -65,6 +65,9 @@ pub fn drain<const N: usize, const P: u32, S: Src>(s: &mut S) {
         cov!(steps == 0 && a < b, "drain dropped without any step");
         drop(d);
     }
+    if on!(P, C18) {
+        chk!(crate::s_mut::dropped_ascending(0, lo, hi - lo), "lifecycle: dropping a drain destroys the remaining drained elements front to back");
+    }
     m.remove_range(a, b);
     if on!(P, C09 | C03) {
         // un-yielded drained elements destroyed exactly once, everything else untouched
@@ -242,5 +245,75 @@ pub fn drain_debug<const N: usize, const P: u32, S: Src>(s: &mut S) {
     while i < hi - lo && i < seen.ids.len() {
         chk!(seen.ids[i] == (lo + i) as u8, "Debug for Drain shows the remaining elements in order");
         i += 1;
+    }
+}
+
+/// element without drop glue that is not `Copy`: "already handed out" must also hold for types
+/// whose duplication no destructor would ever reveal (C10)
+pub struct Plain(pub u8);
+
+/// `drain_forget` for an element type without a destructor
+pub fn drain_forget_plain<const N: usize, const P: u32, S: Src>(s: &mut S) {
+    let mut buf = circular_buffer::CircularBuffer::<N, Plain>::new();
+    let rot = s.usize();
+    s.assume(if N == 0 { rot == 0 } else { rot < N });
+    let mut i = 0;
+    while i < rot {
+        buf.push_back(Plain(0xEE));
+        buf.pop_front();
+        i += 1;
+    }
+    let len = s.usize();
+    s.assume(len <= N);
+    let mut i = 0;
+    while i < len {
+        buf.push_back(Plain(i as u8));
+        i += 1;
+    }
+    let r = SymRange::any(s);
+    s.assume(!r.must_panic(len));
+    let mut held = Ids::new();
+    {
+        let mut d = buf.drain(r);
+        let steps = s.usize();
+        s.assume(steps <= N + 1);
+        let mut k = 0;
+        while k < steps {
+            let t = if s.bool() { d.next() } else { d.next_back() };
+            if let Some(t) = t {
+                held.push(t.0);
+            }
+            k += 1;
+        }
+        cov!(held.n > 0, "plain: drain forgotten after handing out elements");
+        core::mem::forget(d);
+    }
+    chk!(buf.len() <= N, "leaked drain (plain elements): len <= N");
+    let mut cnt = 0;
+    let mut i = 0;
+    while i <= N {
+        match buf.get(i) {
+            Some(t) => {
+                chk!(i < buf.len(), "leaked drain (plain elements): get(i) is None for i >= len");
+                chk!((t.0 as usize) < len, "leaked drain (plain elements): visible elements are drawn from the original contents");
+                chk!(held.count(t.0) == 0, "leaked drain (plain elements): visible elements are disjoint from those handed out");
+                let mut j = 0;
+                while j < i {
+                    chk!(buf.get(j).map(|x| x.0) != Some(t.0), "leaked drain (plain elements): visible elements are distinct");
+                    j += 1;
+                }
+                cnt += 1;
+            }
+            None => chk!(i >= buf.len(), "leaked drain (plain elements): get(i) is Some for i < len"),
+        }
+        i += 1;
+    }
+    chk!(cnt == buf.len(), "leaked drain (plain elements): length is consistent with the visible elements");
+    // keeps working: push/pop still behave
+    if N > 0 {
+        let before = buf.len();
+        let r = buf.push_back(Plain(0x40));
+        chk!(r.is_none() == (before < N), "leaked drain (plain elements): push_back behaves normally afterwards");
+        chk!(buf.back().map(|x| x.0) == Some(0x40), "leaked drain (plain elements): the pushed element is at the back");
     }
 }
